@@ -24,6 +24,7 @@ PLAN = {
     "C01": {"quick": 60000, "thorough": 1500000},
     "C11": {"quick": 4000, "thorough": 60000},
     "C12": {"quick": 6000, "thorough": 80000},
+    "C13": {"quick": 11694, "thorough": 35082},  # lane L: the whole catalogue once / three times (other schedulers)
     "C14": {"quick": 4014, "thorough": 11310},  # 6x / 10x the enumerated grid (669 / 1131 cells)
     "C15": {"quick": 8000, "thorough": 100000},
     "C17": {"quick": 24000, "thorough": 160000},
@@ -338,12 +339,12 @@ ASSUMPTIONS = [
 ]
 
 
-def run_sched_property(pid, tier):
-    t0 = time.time()
+def sched_phase(pid, tier, runs=None):
+    """Run the shuttle-engine lane of a property. Returns a dict with everything the evidence needs."""
     seed = verif_seed()
     ws = workspace()
     binary = build_sched(ws)
-    runs = PLAN[pid][tier]
+    runs = runs or PLAN[pid][tier]
     if os.environ.get("VERIF_RUNS"):
         runs = int(os.environ["VERIF_RUNS"])
     njobs = jobs()
@@ -366,7 +367,8 @@ def run_sched_property(pid, tier):
     # determinism spot check: the first runs of shard 0 again, in a fresh process
     spot = min(64, runs)
     spot_dir = os.path.join(workdir, "spot")
-    so, _ = run_workers(binary, pid, tier, spot, seed, spot_dir, 1)
+    skip = [str(c["run_index"]) for c in crashes if c["run_index"] < spot]
+    run_workers(binary, pid, tier, spot, seed, spot_dir, 1, ["--skip", ",".join(skip)] if skip else None)
     a = dict(zip(*[iter(read_words(os.path.join(spot_dir, "shard00.json.runs")))] * 2))
     b = {}
     for k in range(njobs):
@@ -375,7 +377,7 @@ def run_sched_property(pid, tier):
     mismatch = [i for i, d in a.items() if i in b and b[i] != d]
     if mismatch:
         log("HARNESS-ERROR simulator nondeterminism: runs %s gave different digests in a second process" % mismatch[:8])
-        return 2
+        raise SystemExit(2)
     cases, cases_total = distinct(binary, [os.path.join(workdir, "shard%02d.json.cases" % k) for k in range(njobs)])
     scheds, scheds_total = distinct(binary, [os.path.join(workdir, "shard%02d.json.scheds" % k) for k in range(njobs)])
     new, known_hits, herr = triage(binary, pid, violations, seed)
@@ -412,7 +414,8 @@ def run_sched_property(pid, tier):
         "schedulers": {k[6:]: v for k, v in sorted(c.items()) if k.startswith("sched/")},
         "operations": {k[3:]: v for k, v in sorted(c.items()) if k.startswith("op/")},
         "reach_probes": {k[6:]: v for k, v in sorted(c.items()) if k.startswith("probe/")},
-        "harness_counters": {k: v for k, v in sorted(c.items()) if k.startswith("harness/")},
+        "other_counters": {k: v for k, v in sorted(c.items())
+                           if not k.startswith(("fault/", "cpu/", "rel/", "sched/", "op/", "probe/"))},
         "determinism_spotcheck_runs": len(a),
         "worker_processes": njobs,
         "components": COMPONENTS,
@@ -420,36 +423,53 @@ def run_sched_property(pid, tier):
         "known_findings_hit": [k["signature"] for k in known_hits],
         "new_violation_signatures": [k["signature"] for k in new],
     }
-    wall = time.time() - t0
-    write_evidence(pid, tier, seed, "exploration", coverage, ASSUMPTIONS, wall, len(new))
+    return {"seed": seed, "coverage": coverage, "new": new, "known": known_hits, "herr": herr, "agg": agg,
+            "cases": cases, "scheds": scheds}
+
+
+def report(pid, new, known_hits):
     for k in known_hits:
         log("KNOWN-FINDING: property=%s %s (%s; %d occurrences; replay=%s)" % (pid, k["signature"], k.get("what", ""), k["count"], k["replay"]))
     for v in new:
         log("VIOLATION property=%s replay=%s" % (pid, v["replay"]))
         log("  signature: %s (%d occurrences)" % (v["signature"], v["count"]))
         log("  detail: %s" % v["detail"])
+
+
+def run_sched_property(pid, tier):
+    t0 = time.time()
+    r = sched_phase(pid, tier)
+    wall = time.time() - t0
+    write_evidence(pid, tier, r["seed"], "exploration", r["coverage"], ASSUMPTIONS, wall, len(r["new"]))
+    report(pid, r["new"], r["known"])
     log("%s %s: %d runs, %d executions, %d distinct non-trivial cases, %d distinct schedules, %d new violation "
-        "signature(s), %d known; %.1fs" % (pid, tier, agg["runs"], agg["executions"], cases, scheds, len(new),
-                                            len(known_hits), wall))
-    if herr:
+        "signature(s), %d known; %.1fs" % (pid, tier, r["agg"]["runs"], r["agg"]["executions"], r["cases"], r["scheds"],
+                                            len(r["new"]), len(r["known"]), wall))
+    if r["herr"]:
         return 2
-    return 1 if new else 0
+    return 1 if r["new"] else 0
 
 
 def cmd_setup():
     ws = workspace()
     build_sched(ws)
+    import memdriver
+    memdriver.build(ws)
     return 0
 
 
 def cmd_replay(path):
-    ws = workspace()
-    binary = build_sched(ws, quiet=True)
     try:
-        prop = json.load(open(path)).get("property", "?")
+        rf = json.load(open(path))
+        prop = rf.get("property", "?")
     except Exception as e:  # noqa: BLE001
         log("HARNESS-ERROR cannot read replay file: %s" % e)
         return 2
+    if rf.get("engine") == "simmem":
+        import memdriver
+        return memdriver.replay_mem(path, rf)
+    ws = workspace()
+    binary = build_sched(ws, quiet=True)
     r = subprocess.run([binary, "replay", path], env=base_env(), stdout=subprocess.PIPE, stderr=subprocess.DEVNULL, text=True)
     sys.stdout.write(r.stdout)
     if r.returncode < 0:
@@ -477,6 +497,9 @@ def main(argv):
         pid, tier = argv
         if os.environ.get("VERIF_TIER") in ("quick", "thorough") and False:
             tier = os.environ["VERIF_TIER"]
+        if pid == "C13":
+            import c13
+            return c13.run(tier)
         if pid in PLAN:
             return run_sched_property(pid, tier)
         log("HARNESS-ERROR no check registered for %s" % pid)
